@@ -81,6 +81,9 @@ type wFile struct {
 	Exts       []wField   `json:"exts"`
 	Locs       []wLoc     `json:"locs"`
 	GoPackage  string     `json:"goPackage"`
+	// PkgPresent: the `package` field is present in the descriptor although the name is empty (valid; protoc
+	// never emits it, hand-built descriptors do). Harness-only: same meaning to the model.
+	PkgPresent bool `json:"pkgPresent,omitempty"`
 	// WeakDeps: indices into Deps also listed as weak_dependency (valid; pgs does not read it). Harness-only.
 	WeakDeps []int `json:"weakDeps,omitempty"`
 }
@@ -207,7 +210,7 @@ func buildWorld(w wWorld) *built {
 	b := &built{refOf: map[interface{}]ref{}}
 	for fi, f := range w.Files {
 		fd := &descriptor.FileDescriptorProto{Name: proto.String(f.Name)}
-		if f.Pkg != "" {
+		if f.Pkg != "" || f.PkgPresent {
 			fd.Package = proto.String(f.Pkg)
 		}
 		if f.Syn != "" {
@@ -432,9 +435,26 @@ func genWorld(r *rand.Rand, o genOpts) wWorld {
 		case r.Intn(2) == 0:
 			f.Syn = "proto2"
 		}
+		if f.Pkg == "" && r.Intn(2) == 0 {
+			f.PkgPresent = true
+		}
 		visible[fi] = map[int]bool{}
 		reexports[fi] = map[int]bool{}
-		for d := 0; d < fi; d++ {
+		// declaration order of the imports: ascending (as protoc users mostly write them), or any
+		// other order - `import "b"; import "a"` with b importing a is as valid
+		depOrder := make([]int, fi)
+		for i := range depOrder {
+			depOrder[i] = i
+		}
+		switch r.Intn(3) {
+		case 0:
+			r.Shuffle(len(depOrder), func(i, j int) { depOrder[i], depOrder[j] = depOrder[j], depOrder[i] })
+		case 1:
+			for i, j := 0, len(depOrder)-1; i < j; i, j = i+1, j-1 {
+				depOrder[i], depOrder[j] = depOrder[j], depOrder[i]
+			}
+		}
+		for _, d := range depOrder {
 			// import shapes: sparse random DAG, chains, hubs, dense
 			take := false
 			switch shape {
